@@ -342,8 +342,11 @@ def expand_crate(name, repo, items_log):
 
 
 class Emitter:
-    def __init__(self, repo, template_path, checks_value=False, probe=None, sabotage=None, force_assumed=None):
+    def __init__(self, repo, template_path, checks_value=False, probe=None, sabotage=None, force_assumed=None, force_nocontract=None):
         self.force_assumed = dict(force_assumed or {})
+        # functions whose CONTRACT no longer type-checks against the tree (an edit changed the parameter list): emitted with the
+        # new signature, external_body, no contract at all; every function of the unit that mentions them is made undecidable too
+        self.force_nocontract = dict(force_nocontract or {})
         self.repo = repo.rstrip("/")
         self.template_path = template_path
         self.checks_value = checks_value
@@ -547,6 +550,10 @@ class Emitter:
             out.append("    " + fp.where)
         for secname in ("requires", "ensures", "decreases"):
             t = d.sec(secname)
+            if qual in self.force_nocontract:
+                if secname == "requires":
+                    log.append("SIGNATURE CHANGED on this tree (%s): the contract does not type-check against the new parameter list; emitted as a bare declaration (no contract is assumed or proved); its callers in this unit are undecidable" % self.force_nocontract[qual][:200])
+                continue
             if t.strip():
                 out.append("    " + secname)
                 out.append(keep_tags(t))
